@@ -1,22 +1,28 @@
 #!/usr/bin/env python3
-"""Apply a seeded change to /repo, run the given checks, restore /repo.  Prints one line per check.
-usage: seedtest.py <seeded-dir> <Cxx> [<Cxx> ...]"""
+"""Apply a seeded change to a tree, run the given checks, restore the tree.  Prints one line per check.
+usage: seedtest.py <seeded-dir> <Cxx> [<Cxx> ...]
+The tree is /repo, or the clone named by SEED_REPO (then the checks run with VERIF_REPO=<clone> and private
+build directories VERIF_SLOT=<SEED_SLOT or 'b'>, so /repo stays free for other work)."""
 import json, os, subprocess, sys, time
 d = sys.argv[1]
 props = sys.argv[2:]
-patch = os.path.join(d, 'patch.diff')
-assert subprocess.run(['git', '-C', '/repo', 'status', '--porcelain', '--untracked-files=no'], capture_output=True, text=True).stdout.strip() == '', '/repo not clean'
-subprocess.run(['git', '-C', '/repo', 'apply', patch], check=True)
+patch = os.path.abspath(os.path.join(d, 'patch.diff'))
+tree = os.environ.get('SEED_REPO', '/repo')
+env = dict(os.environ, VERIF_EVIDENCE_DIR='/verif/build/seed-evidence')
+if tree != '/repo':
+    env.update(VERIF_REPO=tree, VERIF_SLOT=os.environ.get('SEED_SLOT', 'b'))
+    env['VERIF_EVIDENCE_DIR'] = '/verif/build/seed-evidence-' + env['VERIF_SLOT']
+assert subprocess.run(['git', '-C', tree, 'status', '--porcelain', '--untracked-files=no'], capture_output=True, text=True).stdout.strip() == '', tree + ' not clean'
+subprocess.run(['git', '-C', tree, 'apply', patch], check=True)
 res = {}
 try:
     for p in props:
         t = time.time()
         # evidence of runs on a deliberately broken tree must not replace the committed evidence of the real tree
-        r = subprocess.run(['./check', p], cwd='/verif', capture_output=True, text=True,
-                           env=dict(os.environ, VERIF_EVIDENCE_DIR='/verif/build/seed-evidence'))
+        r = subprocess.run(['./check', p], cwd='/verif', capture_output=True, text=True, env=env)
         lines = [l for l in r.stdout.split('\n') if l.startswith(('VIOLATION', 'UNDECIDED', 'OK', 'KNOWN', 'DEGRADED'))]
         res[p] = dict(rc=r.returncode, lines=lines[:4], wall=round(time.time() - t, 1))
         print(p, 'rc=%d' % r.returncode, '%.0fs' % (time.time() - t), ' | '.join(lines[:3])[:300])
 finally:
-    subprocess.run(['git', '-C', '/repo', 'checkout', '--', '.'], check=True)
+    subprocess.run(['git', '-C', tree, 'checkout', '--', '.'], check=True)
 json.dump(res, open(os.path.join(d, 'last_run.json'), 'w'), indent=1)
